@@ -416,6 +416,27 @@ def run_special(res):
         if not (o.ok and same(o.val, 5)):
             res.violation(f"C11/special/qualifier-through-text/{label}/{'raises:' + o.excname if not o.ok else 'differs'}",
                           f"{label}: -> {short(o.val if o.ok else o.exc, 100)}; the unwrapped twin (int) gives 5", {"kind": "special", "desc": "ClassVar / Final behind a string reference or a string alias"})
+    # a string-valued alias whose text is a COMPOSITE holding a dotted name; a calling module whose own name starts with the library's
+    cold.clear_all()
+    import decimal as _dec
+
+    dm = prelude.mkmod("tlg_c11_dotted", "import typing, decimal\nPrices = typing.TypeAliasType('Prices', 'dict[str, decimal.Decimal]')\nNPrices = typing.NewType('NPrices', Prices)\n").__dict__
+    tm = prelude.mkmod("typelib_models_tlg", "import typing\nUserIds = list[int]\nfrom decimal import Decimal as Money\ndef call1(f, *a, **k):\n    return f(*a, **k)\n").__dict__
+    for label, fn, want in (
+        ("stralias:dotted-composite", lambda: typelib.unmarshal(dm["Prices"], {"a": "1.5"}), {"a": _dec.Decimal("1.5")}),
+        ("newtype>stralias:dotted-composite", lambda: typelib.unmarshal(dm["NPrices"], {"a": "1.5"}), {"a": _dec.Decimal("1.5")}),
+        ("marshal:stralias:dotted-composite", lambda: typelib.marshal({"a": _dec.Decimal("1.5")}, t=dm["Prices"]), {"a": "1.5"}),
+        ("strref-from-module-named-like-the-library:plain-alias", lambda: tm["call1"](typelib.unmarshal, "UserIds", ["1", "2"]), [1, 2]),
+        ("strref-from-module-named-like-the-library:renamed-import", lambda: tm["call1"](typelib.unmarshal, "Money", "1.5"), _dec.Decimal("1.5")),
+    ):
+        cold.clear_all()
+        o = call(fn)
+        res.evals += 1
+        res.outcomes.add(h64("special", "dotted", label, "ok" if o.ok else o.excname))
+        if not (o.ok and same(o.val, want)):
+            res.violation(f"C11/special/{label}/{'raises:' + o.excname if not o.ok else 'differs'}",
+                          f"{label}: -> {short(o.val if o.ok else o.exc, 100)}; the unwrapped twin gives {want!r}", {"kind": "special", "desc": "dotted composite alias text / library-like module name"})
+    prelude.dropmod("typelib_models_tlg")
     # Final[T] on a field of a PLAIN annotated class that also has a class-level default: the field is a field, both directions
     cold.clear_all()
     fm = prelude.mkmod("tlg_c11_finalplain", "import typing, decimal\nclass W:\n    a: typing.Final[decimal.Decimal] = decimal.Decimal(0)\n    b: str = 'x'\n    def __init__(self, a=decimal.Decimal(0), b='x'):\n        self.a, self.b = a, b\n"
